@@ -229,7 +229,8 @@ package slayers
 //@   ensures result2 == nil ==> (len(result1) == 4 && (result0 == T4Ip || result0 == T4Svc)) || (len(result1) == 16 && result0 == T16Ip)
 
 //@ # ---- C09: size of the SCMP header plus info block per message type (used to bound the quote)
+//@ spec func scmpHdrSize(t SCMPType) int = ite(t == SCMPTypeExternalInterfaceDown, 20, ite(t == SCMPTypeInternalConnectivityDown, 28, ite(t == SCMPTypeTracerouteRequest || t == SCMPTypeTracerouteReply, 24, 8)))
 //@ func ScmpHeaderSize
 //@   props C09
 //@   modifies nothing
-//@   ensures result == ite(typeCode == SCMPTypeExternalInterfaceDown, 20, ite(typeCode == SCMPTypeInternalConnectivityDown, 28, ite(typeCode == SCMPTypeTracerouteRequest || typeCode == SCMPTypeTracerouteReply, 24, 8)))
+//@   ensures result == scmpHdrSize(typeCode)
